@@ -111,6 +111,11 @@ Mutants of /repo tried (scratch worktree, VERIF_REPO; quick tier, seed 0) — al
   M9  _resolve_node_device_configurations skips functions             correspondence + oracle (round trip)
   M10 conflicting stage not checked when the configuration has specs  correspondence + oracle (request accepted)
   The shrunk witnesses of M1-M6, M8-M10 are kept in corpus/C19 (run first on every run).
+  Seeded C19-r5m1 (remove_device_configuration(by object) matches by equality, the cascade by identity): missed
+  while every configuration handle came from the model; the op stream now also passes equal-but-distinct
+  ModelConfiguration objects (handles >= FOREIGN, created on first use) to remove_device_configuration (cascade
+  True/False) and, in malformed histories, to shard / set_pipeline_stage.  Model unchanged: identity, so rejection
+  + frame (C19_reject_frame) resp. an unregistered reference (check kind 4).
   Seeded C19-r3m1 (Model.clone(deep_copy=True) re-creates the configuration records while the cloned nodes keep
   the original objects): missed while the clone op only used clone(); the op now carries deep_copy and
   allow_outer_scope_values (the latter through Graph.clone + re-assembly, main graph and its bodies only, since
@@ -277,6 +282,9 @@ def classify(msg: str) -> tuple[int, int, int]:
     return (99, nid, 0)
 
 
+FOREIGN = 100000
+
+
 class HarnessError(Exception):
     """The world left the part of the library the model describes (reported as a broken correspondence)."""
 
@@ -295,6 +303,7 @@ class World:
         self.nid_of: dict[int, int] = {}
         self.nregion: dict[int, int] = {}
         self.keep: list = []          # keeps replaced objects alive so id() is never reused
+        self.foreign: dict = {}       # handle >= FOREIGN -> configuration object not obtained from the model
         self.nscope: dict[int, int] = {}     # node handle -> scope (0 main graph, 1 function, >= 2 subgraph body)
         self.parent: dict[int, int] = {}     # body scope -> enclosing scope
         self._tmp_scope: dict[int, int] = {}
@@ -348,6 +357,20 @@ class World:
         if vid is None:
             vid = self._reg_value(v, None)
         return (vid, len(v.shape) if v.shape is not None else None)
+
+    def cfg_obj(self, c):
+        """The configuration object of a handle record (cid, name, num_devices).  Handles >= FOREIGN name objects
+        that were NOT obtained from this model: a distinct ModelConfiguration built with the given fields (equal
+        to, but not, a registered one when the fields coincide); created on first use."""
+        cid = c[0]
+        if cid < FOREIGN:
+            return self.cfgs[cid]
+        if cid not in self.foreign:
+            from onnx_ir import _multi_device as md
+            obj = md.ModelConfiguration(name=c[1], num_devices=c[2])
+            self.foreign[cid] = obj
+            self.cid_of[id(obj)] = cid
+        return self.foreign[cid]
 
     def crec(self, c):
         cid = self.cid_of.get(id(c))
@@ -586,20 +609,20 @@ class World:
         node = self.node_by_id(o["n"]) if "n" in o else None
         if isinstance(o.get("v"), (tuple, list)) and not 0 <= o["v"][0] < len(self.vals):
             raise HarnessError(f"no value with handle {o['v'][0]}")
-        if "c" in o and not 0 <= o["c"][0] < len(self.cfgs):
+        if "c" in o and o["c"][0] < FOREIGN and not 0 <= o["c"][0] < len(self.cfgs):
             raise HarnessError(f"no configuration with handle {o['c'][0]}")
         try:
             if k == "shard":
-                node.shard(self.vals[o["v"][0]], configuration=self.cfgs[o["c"][0]],
+                node.shard(self.vals[o["v"][0]], configuration=self.cfg_obj(o["c"]),
                            axis=o["axis"], num_shards=o["shards"],
                            device_indices=list(o["devs"]), pipeline_stage=o["stage"])
             elif k == "stage":
-                node.set_pipeline_stage(self.cfgs[o["c"][0]], o["stage"])
+                node.set_pipeline_stage(self.cfg_obj(o["c"]), o["stage"])
             elif k == "addcfg":
                 c = self.model.add_device_configuration(o["name"], num_devices=o["ndev"])
                 self._reg_cfg(c)
             elif k == "remcfg_obj":
-                self.model.remove_device_configuration(self.cfgs[o["c"][0]], cascade=o["cascade"])
+                self.model.remove_device_configuration(self.cfg_obj(o["c"]), cascade=o["cascade"])
             elif k == "remcfg_name":
                 self.model.remove_device_configuration(o["name"], cascade=o["cascade"])
             elif k == "rename":
@@ -757,14 +780,27 @@ class Gen:
         self.strict = strict
         self.shapes = shapes          # also edit the shapes of (sharded) values
         self.fresh = 0
+        self.nforeign = 0
         self.pending: list[dict] = []
 
     def _registered(self, w):
         return [w.crec(c) for c in w.model.device_configurations]
 
+    def _foreign_equal(self, w):
+        """Handle record of a distinct object equal to a registered configuration (preferably one in use)."""
+        reg = self._registered(w)
+        if not reg:
+            return None
+        used = [dc[0] for _, nd in w.canon_nodes() for dc in nd["dc"] if dc[0] in reg]
+        c = self.rng.choice(used or reg)
+        self.nforeign += 1
+        return (FOREIGN + self.nforeign, c[1], c[2])
+
     def _pick_cfg(self, w):
         reg = self._registered(w)
         allc = [w.crec(c) for c in w.cfgs]
+        if not self.strict and reg and self.rng.random() < 0.06:
+            return self._foreign_equal(w)
         if not self.strict and allc and self.rng.random() < 0.15:
             return self.rng.choice(allc)
         return self.rng.choice(reg) if reg else None
@@ -857,7 +893,11 @@ class Gen:
                 allc = [w.crec(c) for c in w.cfgs]
                 cascade = True if self.strict else r.random() < 0.6
                 if r.random() < 0.5:
-                    if r.random() < 0.1 and allc:
+                    if r.random() < 0.3 and reg:
+                        # an equal-but-distinct object: references are by identity, the request is rejected
+                        c = self._foreign_equal(w)
+                        cascade = True if self.strict else r.random() < 0.7
+                    elif r.random() < 0.1 and allc:
                         c = r.choice(allc)
                     elif reg:
                         c = r.choice(reg)
@@ -1069,7 +1109,7 @@ def _snapshot(w: World) -> dict:
 
 def shard_invalid(node, o, w: World) -> str | None:
     """Why the property requires this shard request to be rejected (None: not required)."""
-    v, c = w.vals[o["v"][0]], w.cfgs[o["c"][0]]
+    v, c = w.vals[o["v"][0]], w.cfg_obj(o["c"])
     if not _is_in(v, _io(node)):
         return "value is not an input/output of the node"
     if o["shards"] < 1:
